@@ -557,6 +557,15 @@ func (c *FnCtx) callUnknownOpaque(fr *Frame, st *State, fv Val, ft types.Type, a
 func (c *FnCtx) invoke(fr *Frame, st *State, recv Val, m *types.Func, args []Val, pos token.Pos) *Val {
 	sig := m.Type().(*types.Signature)
 	resT := sig.Results()
+	if c.spec != nil {
+		for _, t := range c.spec.Track {
+			if t == m.Name() {
+				// `track M` also counts interface method calls named M (the ghost log has no arguments for them)
+				cnt := c.comp("ghost$calls$"+m.Name(), "Int")
+				c.heapSet(st, cnt, "(+ "+c.heapGet(st, cnt)+" 1)")
+			}
+		}
+	}
 	c.guardInvoke(st, recv, m, pos)
 	o := c.obligation(st, "safe", "nilinvoke", "(not (= (i-tag "+recv.E+") 0))", pos)
 	o.Desc = "method call on nil interface value"
